@@ -2327,10 +2327,15 @@ func (p *Parser) evaluateLogicalOperation(ctx context, operator LogicalOperator,
 		}
 		p.eat() // Eat operator token.
 		operatorValue := operatorToken.Value()
+		rightToken := p.peek()
 		rightExpression, errTemp := higherPrioOperation(ctx)
 
 		if errTemp != nil {
 			return nil, errTemp
+		}
+
+		if !rightExpression.ValueType().IsBool() {
+			return nil, p.expectedError("boolean value", rightToken)
 		}
 		leftExpression = LogicalOperation{
 			left:     leftExpression,
